@@ -51,6 +51,9 @@ def rect2polar(x, y):
     theta = atan2(x, y)
     if theta < 0:
         theta = degrees(theta) + 360
+        # a direction a hair west of north rounds up to 360: keep [0, 360)
+        if theta >= 360:
+            theta = 0.0
     else:
         theta = degrees(theta)
     return r, theta
